@@ -52,6 +52,16 @@ PROPS = {
         "technique": "exhaustive enumeration of all inputs up to a size bound against an independent reference decoder and a differential (compressed vs uncompressed) oracle",
         "assumptions": [],
     },
+    "C08": {
+        "bin": "px_editor", "budget_ms": 30000, "wall_cap": {"quick": 150, "thorough": 2400},
+        "rule": "every history of length <=2 (thorough <=3) over ~100 operation instances (every public editing operation with in-range and boundary arguments, selection set-up, current-layer / caret set-up steps, atomic groups incl. nesting) "
+                "on 5 start documents (1 layer; offset alpha layer; hidden + locked layers; a shrunk layer with hidden content; custom palette + second font + chars layer + SAUCE); per history: undo step by step down to the start comparing an observational "
+                "snapshot at every operation boundary, redo back up comparing again, undo/redo interleavings of length <=4 from the top, and 'new edit after undo discards redo'. non-trivial = the history grew the undo stack",
+        "level_text": "all edit histories up to the depth bound are executed on the real EditState and every undo / redo walk inside them is compared with snapshots recorded on the way up (differential oracle, no hand-written expected values)",
+        "level_note": "an operation that returns Err or panics ends the history before it (the statement quantifies over operations that report success); selection, caret and dirty flags are not part of the document; the statement's random length-40 histories are not claimed",
+        "technique": "explicit-state search over operation histories (bounded depth, non-initial start states) with a differential snapshot oracle on every undo/redo transition",
+        "assumptions": [],
+    },
     "C09": {
         "bin": "px_stream", "budget_ms": 1500, "wall_cap": {"quick": 100, "thorough": 2400},
         "rule": "same explorer as C01 minus text-area resize tokens, plus every token pair repeated until 3*H line changes happened (deterministic replacement of the random scrollback-filling streams); "
@@ -135,6 +145,8 @@ PROPS = {
 HOOK_COMMITS = ["81babd1"]
 
 ENGINES = [
+    {"name": "px_editor", "path": "harness/src/bin/px_editor.rs", "serves_properties": ["C08"],
+     "kind_free_text": "edit-history explorer with observational snapshots and undo/redo walks"},
     {"name": "px_layers", "path": "harness/src/bin/px_layers.rs", "serves_properties": ["C12", "C13"],
      "kind_free_text": "layer stack enumerator with stacking laws + reference compositor; colour optimiser render-equivalence enumerator"},
     {"name": "px_load", "path": "harness/src/bin/px_load.rs", "serves_properties": ["C02", "C03"],
